@@ -401,7 +401,7 @@ func famRange(e *env, r *rand.Rand) {
 				saved, savedRelax := e.keyOverride, e.relaxFail
 				extent := new(big.Int).Mul(new(big.Int).Abs(step), new(big.Int).Add(L, bigOne)) // |step|*(len+1)+2: total extent plus one step
 				extent.Add(extent, bi(2))
-				if e.keyOverride == "" && (!fitsI64(new(big.Int).Sub(start, step)) || !fitsI64(ex.at(L)) || !fitsI64(new(big.Int).Mul(step, bi(st))) || !fitsI64(extent)) {
+				if kcls != "int" || (!fitsI64(new(big.Int).Sub(start, step)) || !fitsI64(ex.at(L)) || !fitsI64(new(big.Int).Mul(step, bi(st))) || !fitsI64(extent)) {
 					e.keyOverride, e.relaxFail = "C10 wrong range.slice int64-overflow", true
 				}
 				restore := func() { e.keyOverride, e.relaxFail = saved, savedRelax }
